@@ -3,7 +3,7 @@ use crate::{
     error::{WriterError, WriterResult},
     model::{
         Namespace,
-        field::as_field_name,
+        field::{as_field_name, as_type_name},
         helpers::{write_check_restrictions_footer, write_check_restrictions_header},
     },
     reader::WriteXml,
@@ -52,7 +52,7 @@ where
     W: io::Write,
 {
     // generate an async fn for the operation
-    let rust_fn_name = to_snake_case(operation_name);
+    let rust_fn_name = as_field_name(operation_name);
     let request_name = format!("{operation_name}InputEnvelope");
     let response_name = operation
         .output
@@ -109,7 +109,7 @@ where
         writeln!(writer, "pub struct {rust_name} {{")?;
         for (part_name, header) in &soap_operation.headers {
             let field_name = as_field_name(part_name);
-            let rust_type = to_pascal_case(header.rust_type.xml_name().ok_or(WriterError::InvalidReference)?);
+            let rust_type = as_type_name(header.rust_type.xml_name().ok_or(WriterError::InvalidReference)?);
 
             if let Some(namespace) = header.in_namespace.as_ref() {
                 let abbreviation = namespace.abbreviation.as_str();
@@ -147,7 +147,7 @@ where
     let body = soap_operation.body.rust_type.xml_name().ok_or(WriterError::InvalidReference)?;
     let body_field_name = as_field_name(&to_snake_case(body));
     // the struct generated for the element is named in PascalCase
-    let body_type = to_pascal_case(body);
+    let body_type = as_type_name(body);
     let xml_name = soap_operation.body.rust_type.xml_name().ok_or(WriterError::InvalidReference)?;
 
     writeln!(writer, "#[derive(Debug, Default, YaSerialize, YaDeserialize)]")?;
